@@ -199,7 +199,9 @@ def run(case, rec):
     if base is None:
         return
     scale_pred = max([float(np.nanmax(np.abs(b))) if np.isfinite(b).any() else 0.0 for b in base] + [dnorm])
-    tight = np.full(qe.size, 8 * R.EPS * scale_pred)
+    # "unchanged up to solver round-off": a solver may see another memory layout of the same numbers, so the admissible difference is
+    # the conditioning-aware bound (never below 8 eps x scale)
+    tight = np.maximum(np.full(qe.size, 8 * R.EPS * scale_pred), _bound(spec, e, n, qe, qn, dnorm, ext, False))
     if fam == "perm":
         tol = _bound(spec, e, n, qe, qn, dnorm, ext, True)
         for perm in itertools.permutations(range(npts)):
